@@ -30,7 +30,7 @@ if cases and os.path.exists(V + "/ocaml/_build/driver"):
             for c in fresh: print("  now:", readable(c)[:3000])
             with open(f.name, "w") as g: g.write("\n".join(fresh) + "\n")
         if rr.stderr.strip(): print("  (", rr.stderr.strip()[:300], ")")
-    out = subprocess.run([V + "/ocaml/_build/driver", f.name], stdout=subprocess.PIPE, text=True).stdout
+    out = subprocess.run("ulimit -s unlimited 2>/dev/null; exec %s/ocaml/_build/driver %s" % (V, f.name), shell=True, stdout=subprocess.PIPE, text=True).stdout
     print("\nverdicts (model vs recorded behaviour, property oracles):")
     for l in out.splitlines(): print("  ", l[:400])
     os.unlink(f.name)
